@@ -37,7 +37,7 @@ theorem commit_alter {k : Kind} (h : k.inPlace = true) (H : Heap) (a : Addr) (c 
 /-- the scalar clauses convert a scalar of the source form to the same scalar in the target form -/
 theorem scalar_spec {k : Kind} {r : Ref} {t : T} (hd : denoteScalar r = some t)
     (hp : t.pure k.src = true) :
-    ∃ r', scalar k r = some r' ∧ denoteScalar r' = some (t.toForm k.dst) := by
+    ∃ r', scalar k r = some r' ∧ denoteScalar r' = some (t.toForm k.dst k.fillsNil) := by
   cases r with
   | null => cases hd; cases k <;> simp [scalar, denoteScalar, T.toForm]
   | bool f b =>
@@ -94,14 +94,14 @@ theorem owns_list_lt {n : Nat} {H : Heap} {xs : List Ref} {Ss : List (List Addr)
 def CopySpec (k : Kind) (n : Nat) : Prop :=
   ∀ (opt : Opt) (H : Heap) (r : Ref) (t : T), opt.omitEmpty = false → denote n H r = some t →
     t.pure k.src = true → t.keeps k opt = true →
-    ∃ H' r', conv k n opt H r = some (H', r') ∧ Ext H H' ∧ denote n H' r' = some (t.toForm k.dst) ∧
+    ∃ H' r', conv k n opt H r = some (H', r') ∧ Ext H H' ∧ denote n H' r' = some (t.toForm k.dst k.fillsNil) ∧
       ∃ S, owns n H' r' = some S ∧ S.Nodup ∧ ∀ a, a ∈ S → H.length ≤ a
 
 theorem forEach_copy {k : Kind} {n : Nat} (ih : CopySpec k n) (opt : Opt) (hoe : opt.omitEmpty = false) :
     ∀ (xs : List Ref) (H : Heap) (ts : List T), mapOpt (denote n H) xs = some ts →
       T.pureList k.src ts = true → T.keepsList k opt ts = true →
       ∃ H' ys, forEach (conv k n opt) H xs = some (H', ys) ∧ Ext H H' ∧
-        mapOpt (denote n H') ys = some (T.toFormList k.dst ts) ∧
+        mapOpt (denote n H') ys = some (T.toFormList k.dst k.fillsNil ts) ∧
         ∃ Ss, mapOpt (owns n H') ys = some Ss ∧ Ss.flatten.Nodup ∧ ∀ a, a ∈ Ss.flatten → H.length ≤ a
   | [], H, ts, hm, _, _ => by
     simp [mapOpt] at hm; subst hm
@@ -132,7 +132,7 @@ theorem forEachKv_copy {k : Kind} {n : Nat} (ih : CopySpec k n) (opt : Opt) (hoe
     ∀ (kvs : List (String × Ref)) (H : Heap) (ts : List (String × T)),
       mapOptKv (denote n H) kvs = some ts → T.pureKvs k.src ts = true → T.keepsKvs k opt ts = true →
       ∃ H' ys, forEachKv (conv k n (k.mapOpt opt)) (omits k opt) H kvs = some (H', ys) ∧ Ext H H' ∧
-        mapOptKv (denote n H') ys = some (T.toFormKvs k.dst ts) ∧
+        mapOptKv (denote n H') ys = some (T.toFormKvs k.dst k.fillsNil ts) ∧
         ∃ Ss, mapOpt (owns n H') (ys.map (·.2)) = some Ss ∧ Ss.flatten.Nodup ∧
           ∀ a, a ∈ Ss.flatten → H.length ≤ a
   | [], H, ts, hm, _, _ => by
@@ -166,7 +166,7 @@ theorem forEachKv_copy {k : Kind} {n : Nat} (ih : CopySpec k n) (opt : Opt) (hoe
 
 theorem copy_scalar {k : Kind} {n : Nat} {opt : Opt} {H : Heap} {r : Ref} {t : T}
     (hs : denoteScalar r = some t) (hp : t.pure k.src = true) :
-    ∃ H' r', conv k n opt H r = some (H', r') ∧ Ext H H' ∧ denote n H' r' = some (t.toForm k.dst) ∧
+    ∃ H' r', conv k n opt H r = some (H', r') ∧ Ext H H' ∧ denote n H' r' = some (t.toForm k.dst k.fillsNil) ∧
       ∃ S, owns n H' r' = some S ∧ S.Nodup ∧ ∀ a, a ∈ S → H.length ≤ a := by
   obtain ⟨r', hsc, hd'⟩ := scalar_spec hs hp
   refine ⟨H, r', ?_, Ext.refl H, denote_scalar hd', [], owns_of_scalar hd', by simp, by simp⟩
@@ -184,46 +184,28 @@ theorem copy_spec (k : Kind) (hk : k.inPlace = false) : ∀ n, CopySpec k n
     cases r with
     | nilArr f =>
       simp only [denote, Option.some.injEq] at hd; subst hd
-      simp only [T.pure, Bool.and_eq_true, decide_eq_true_eq] at hp
-      obtain ⟨hf, _⟩ := hp
-      cases k <;> simp [Kind.inPlace] at hk
-      case generify =>
-        refine ⟨H ++ [.arr []], .arr Kind.generify.dst H.length, by simp [conv, hf, nilContainer],
+      have hf : f = k.src := by simpa [T.pure] using hp
+      cases hfill : k.fillsNil with
+      | true =>
+        refine ⟨H ++ [.arr []], .arr k.dst H.length, by simp [conv, hf, nilContainer, hfill],
           Ext.append H _, ?_, [H.length], ?_, by simp, by simp⟩
-        · exact denote_arr_some.2 ⟨[], [], get_append_new H _, rfl, by simp [T.toForm, T.toFormList]⟩
+        · exact denote_arr_some.2 ⟨[], [], get_append_new H _, rfl, by simp [T.toForm]⟩
         · exact owns_arr_some.2 ⟨[], [], get_append_new H _, rfl, by simp⟩
-      case decompose =>
-        refine ⟨H ++ [.arr []], .arr Kind.decompose.dst H.length, by simp [conv, hf, nilContainer],
-          Ext.append H _, ?_, [H.length], ?_, by simp, by simp⟩
-        · exact denote_arr_some.2 ⟨[], [], get_append_new H _, rfl, by simp [T.toForm, T.toFormList]⟩
-        · exact owns_arr_some.2 ⟨[], [], get_append_new H _, rfl, by simp⟩
-      case simplify =>
-        exact ⟨H, .nilArr Kind.simplify.dst, by simp [conv, hf, nilContainer], Ext.refl H,
-          by simp [denote, T.toForm, T.toFormList], [], by simp [owns], by simp, by simp⟩
-      case genDup =>
-        exact ⟨H, .nilArr Kind.genDup.dst, by simp [conv, hf, nilContainer], Ext.refl H,
-          by simp [denote, T.toForm, T.toFormList], [], by simp [owns], by simp, by simp⟩
+      | false =>
+        exact ⟨H, .nilArr k.dst, by simp [conv, hf, nilContainer, hfill], Ext.refl H,
+          by simp [denote, T.toForm], [], by simp [owns], by simp, by simp⟩
     | nilObj f =>
       simp only [denote, Option.some.injEq] at hd; subst hd
-      simp only [T.pure, Bool.and_eq_true, decide_eq_true_eq] at hp
-      obtain ⟨hf, _⟩ := hp
-      cases k <;> simp [Kind.inPlace] at hk
-      case generify =>
-        refine ⟨H ++ [.obj []], .obj Kind.generify.dst H.length, by simp [conv, hf, nilContainer],
+      have hf : f = k.src := by simpa [T.pure] using hp
+      cases hfill : k.fillsNil with
+      | true =>
+        refine ⟨H ++ [.obj []], .obj k.dst H.length, by simp [conv, hf, nilContainer, hfill],
           Ext.append H _, ?_, [H.length], ?_, by simp, by simp⟩
-        · exact denote_obj_some.2 ⟨[], [], get_append_new H _, rfl, by simp [T.toForm, T.toFormKvs]⟩
+        · exact denote_obj_some.2 ⟨[], [], get_append_new H _, rfl, by simp [T.toForm]⟩
         · exact owns_obj_some.2 ⟨[], [], get_append_new H _, rfl, by simp⟩
-      case decompose =>
-        refine ⟨H ++ [.obj []], .obj Kind.decompose.dst H.length, by simp [conv, hf, nilContainer],
-          Ext.append H _, ?_, [H.length], ?_, by simp, by simp⟩
-        · exact denote_obj_some.2 ⟨[], [], get_append_new H _, rfl, by simp [T.toForm, T.toFormKvs]⟩
-        · exact owns_obj_some.2 ⟨[], [], get_append_new H _, rfl, by simp⟩
-      case simplify =>
-        exact ⟨H, .nilObj Kind.simplify.dst, by simp [conv, hf, nilContainer], Ext.refl H,
-          by simp [denote, T.toForm, T.toFormKvs], [], by simp [owns], by simp, by simp⟩
-      case genDup =>
-        exact ⟨H, .nilObj Kind.genDup.dst, by simp [conv, hf, nilContainer], Ext.refl H,
-          by simp [denote, T.toForm, T.toFormKvs], [], by simp [owns], by simp, by simp⟩
+      | false =>
+        exact ⟨H, .nilObj k.dst, by simp [conv, hf, nilContainer, hfill], Ext.refl H,
+          by simp [denote, T.toForm], [], by simp [owns], by simp, by simp⟩
     | arr f a =>
       obtain ⟨xs, ts, hc, hm, rfl⟩ := denote_arr_some.1 hd
       simp only [T.pure, Bool.and_eq_true, decide_eq_true_eq] at hp
@@ -353,41 +335,25 @@ theorem fresh_spec (k : Kind) (hk : k.inPlace = false) : ∀ n, FreshSpec k n
     cases r with
     | nilArr f =>
       simp only [denote, Option.some.injEq] at hd; subst hd
-      simp only [T.pure, Bool.and_eq_true, decide_eq_true_eq] at hp
-      obtain ⟨hf, _⟩ := hp
-      cases k <;> simp [Kind.inPlace] at hk
-      case generify =>
-        exact ⟨H ++ [.arr []], .arr Kind.generify.dst H.length, by simp [conv, hf, nilContainer],
+      have hf : f = k.src := by simpa [T.pure] using hp
+      cases hfill : k.fillsNil with
+      | true =>
+        exact ⟨H ++ [.arr []], .arr k.dst H.length, by simp [conv, hf, nilContainer, hfill],
           Ext.append H _, [H.length], owns_arr_some.2 ⟨[], [], get_append_new H _, rfl, by simp⟩,
           by simp, by simp⟩
-      case decompose =>
-        exact ⟨H ++ [.arr []], .arr Kind.decompose.dst H.length, by simp [conv, hf, nilContainer],
-          Ext.append H _, [H.length], owns_arr_some.2 ⟨[], [], get_append_new H _, rfl, by simp⟩,
-          by simp, by simp⟩
-      case simplify =>
-        exact ⟨H, .nilArr Kind.simplify.dst, by simp [conv, hf, nilContainer], Ext.refl H,
-          [], by simp [owns], by simp, by simp⟩
-      case genDup =>
-        exact ⟨H, .nilArr Kind.genDup.dst, by simp [conv, hf, nilContainer], Ext.refl H,
+      | false =>
+        exact ⟨H, .nilArr k.dst, by simp [conv, hf, nilContainer, hfill], Ext.refl H,
           [], by simp [owns], by simp, by simp⟩
     | nilObj f =>
       simp only [denote, Option.some.injEq] at hd; subst hd
-      simp only [T.pure, Bool.and_eq_true, decide_eq_true_eq] at hp
-      obtain ⟨hf, _⟩ := hp
-      cases k <;> simp [Kind.inPlace] at hk
-      case generify =>
-        exact ⟨H ++ [.obj []], .obj Kind.generify.dst H.length, by simp [conv, hf, nilContainer],
+      have hf : f = k.src := by simpa [T.pure] using hp
+      cases hfill : k.fillsNil with
+      | true =>
+        exact ⟨H ++ [.obj []], .obj k.dst H.length, by simp [conv, hf, nilContainer, hfill],
           Ext.append H _, [H.length], owns_obj_some.2 ⟨[], [], get_append_new H _, rfl, by simp⟩,
           by simp, by simp⟩
-      case decompose =>
-        exact ⟨H ++ [.obj []], .obj Kind.decompose.dst H.length, by simp [conv, hf, nilContainer],
-          Ext.append H _, [H.length], owns_obj_some.2 ⟨[], [], get_append_new H _, rfl, by simp⟩,
-          by simp, by simp⟩
-      case simplify =>
-        exact ⟨H, .nilObj Kind.simplify.dst, by simp [conv, hf, nilContainer], Ext.refl H,
-          [], by simp [owns], by simp, by simp⟩
-      case genDup =>
-        exact ⟨H, .nilObj Kind.genDup.dst, by simp [conv, hf, nilContainer], Ext.refl H,
+      | false =>
+        exact ⟨H, .nilObj k.dst, by simp [conv, hf, nilContainer, hfill], Ext.refl H,
           [], by simp [owns], by simp, by simp⟩
     | arr f a =>
       obtain ⟨xs, ts, hc, hm, rfl⟩ := denote_arr_some.1 hd
@@ -438,7 +404,7 @@ def AlterSpec (k : Kind) (n : Nat) : Prop :=
   ∀ (opt : Opt) (H : Heap) (r : Ref) (t : T) (S : List Addr), opt.omitEmpty = false →
     denote n H r = some t → owns n H r = some S → S.Nodup → t.pure k.src = true → t.keeps k opt = true →
     ∃ H' r', conv k n opt H r = some (H', r') ∧ H'.length = H.length ∧ (∀ a, a ∉ S → H'[a]? = H[a]?) ∧
-      denote n H' r' = some (t.toForm k.dst) ∧ owns n H' r' = some S ∧ r'.addr? = r.addr?
+      denote n H' r' = some (t.toForm k.dst k.fillsNil) ∧ owns n H' r' = some S ∧ r'.addr? = r.addr?
 
 theorem forEach_alter {k : Kind} {n : Nat} (ih : AlterSpec k n) (opt : Opt) (hoe : opt.omitEmpty = false) :
     ∀ (xs : List Ref) (H : Heap) (ts : List T) (Ss : List (List Addr)),
@@ -446,7 +412,7 @@ theorem forEach_alter {k : Kind} {n : Nat} (ih : AlterSpec k n) (opt : Opt) (hoe
       T.pureList k.src ts = true → T.keepsList k opt ts = true →
       ∃ H' ys, forEach (conv k n opt) H xs = some (H', ys) ∧ H'.length = H.length ∧
         (∀ a, a ∉ Ss.flatten → H'[a]? = H[a]?) ∧
-        mapOpt (denote n H') ys = some (T.toFormList k.dst ts) ∧ mapOpt (owns n H') ys = some Ss
+        mapOpt (denote n H') ys = some (T.toFormList k.dst k.fillsNil ts) ∧ mapOpt (owns n H') ys = some Ss
   | [], H, ts, Ss, hm, ho, _, _, _ => by
     simp [mapOpt] at hm ho; subst hm; subst ho
     exact ⟨H, [], rfl, rfl, fun _ _ => rfl, rfl, rfl⟩
@@ -477,7 +443,7 @@ theorem forEachKv_alter {k : Kind} {n : Nat} (ih : AlterSpec k n) (opt : Opt) (h
       Ss.flatten.Nodup → T.pureKvs k.src ts = true → T.keepsKvs k opt ts = true →
       ∃ H' ys, forEachKv (conv k n (k.mapOpt opt)) (omits k opt) H kvs = some (H', ys) ∧
         H'.length = H.length ∧ (∀ a, a ∉ Ss.flatten → H'[a]? = H[a]?) ∧
-        mapOptKv (denote n H') ys = some (T.toFormKvs k.dst ts) ∧
+        mapOptKv (denote n H') ys = some (T.toFormKvs k.dst k.fillsNil ts) ∧
         mapOpt (owns n H') (ys.map (·.2)) = some Ss
   | [], H, ts, Ss, hm, ho, _, _, _ => by
     simp [mapOptKv] at hm; simp [mapOpt] at ho; subst hm; subst ho
@@ -511,7 +477,7 @@ theorem forEachKv_alter {k : Kind} {n : Nat} (ih : AlterSpec k n) (opt : Opt) (h
 theorem alter_scalar {k : Kind} {n : Nat} {opt : Opt} {H : Heap} {r : Ref} {t : T} {S : List Addr}
     (hs : denoteScalar r = some t) (ho : owns n H r = some S) (hp : t.pure k.src = true) :
     ∃ H' r', conv k n opt H r = some (H', r') ∧ H'.length = H.length ∧ (∀ a, a ∉ S → H'[a]? = H[a]?) ∧
-      denote n H' r' = some (t.toForm k.dst) ∧ owns n H' r' = some S ∧ r'.addr? = r.addr? := by
+      denote n H' r' = some (t.toForm k.dst k.fillsNil) ∧ owns n H' r' = some S ∧ r'.addr? = r.addr? := by
   obtain ⟨r', hsc, hd'⟩ := scalar_spec hs hp
   have hS : S = [] := by rw [owns_of_scalar hs] at ho; cases ho; rfl
   subst hS
@@ -532,19 +498,17 @@ theorem alter_spec (k : Kind) (hk : k.inPlace = true) : ∀ n, AlterSpec k n
     | nilArr f =>
       simp only [denote, Option.some.injEq] at hd; subst hd
       simp only [owns, Option.some.injEq] at ho; subst ho
-      simp only [T.pure, Bool.and_eq_true, decide_eq_true_eq] at hp
-      obtain ⟨hf, _⟩ := hp
-      refine ⟨H, .nilArr k.dst, ?_, rfl, fun _ _ => rfl, by simp [denote, T.toForm, T.toFormList],
-        by simp [owns], rfl⟩
-      cases k <;> simp [Kind.inPlace] at hk <;> simp [conv, hf, nilContainer]
+      have hf : f = k.src := by simpa [T.pure] using hp
+      have hfill : k.fillsNil = false := by cases k <;> simp [Kind.inPlace] at hk <;> rfl
+      exact ⟨H, .nilArr k.dst, by simp [conv, hf, nilContainer, hfill], rfl, fun _ _ => rfl,
+        by simp [denote, T.toForm, hfill], by simp [owns], rfl⟩
     | nilObj f =>
       simp only [denote, Option.some.injEq] at hd; subst hd
       simp only [owns, Option.some.injEq] at ho; subst ho
-      simp only [T.pure, Bool.and_eq_true, decide_eq_true_eq] at hp
-      obtain ⟨hf, _⟩ := hp
-      refine ⟨H, .nilObj k.dst, ?_, rfl, fun _ _ => rfl, by simp [denote, T.toForm, T.toFormKvs],
-        by simp [owns], rfl⟩
-      cases k <;> simp [Kind.inPlace] at hk <;> simp [conv, hf, nilContainer]
+      have hf : f = k.src := by simpa [T.pure] using hp
+      have hfill : k.fillsNil = false := by cases k <;> simp [Kind.inPlace] at hk <;> rfl
+      exact ⟨H, .nilObj k.dst, by simp [conv, hf, nilContainer, hfill], rfl, fun _ _ => rfl,
+        by simp [denote, T.toForm, hfill], by simp [owns], rfl⟩
     | arr f a =>
       obtain ⟨xs, ts, hc, hm, rfl⟩ := denote_arr_some.1 hd
       obtain ⟨xs', Ss, hc', hmo, rfl⟩ := owns_arr_some.1 ho
